@@ -723,6 +723,9 @@ def run(chk):
         'on the implementation only (oracle, 1e-7 / 10^-precision)',
         'regex applicability of neutral-loss patterns: character classes / single letters are modelled (counted in Lean); for any '
         'other regular expression the number of re.findall matches on every substring is computed on the Python side and sent',
+        'neutral-loss order: get_losses returns a Python set of floats; the model returns a duplicate-free list and every comparison '
+        'of the loss loop is order-free (sorted by value); the built-in rules [STED] / [RKNQ] and custom character classes are '
+        'counted in Lean (ops builtin/count tie them to re.findall on every span)',
         'iteration order of the Python set returned by get_losses is not modelled: inside one (span, ion type, isotope) block fragments '
         'are compared after sorting by loss; the other return types are compared as sorted lists and tied to the fragment list '
         'order by the projection oracle',
@@ -804,6 +807,22 @@ def run(chk):
                    lambda c: f'losses\t{annot.esc(c[0])}\t{";".join(rule_wire(r, c[0]) for r in c[1])}\t{c[2]}',
                    lambda c: ','.join(repr(float(x)) for x in fr_mod.get_losses(c[0], [tuple(r) for r in c[1]], c[2])),
                    compare=loss_cmp, nontrivial_fn=lambda c, im: im.count(',') >= 2)
+
+    # applicability of the built-in rules is computed in Lean (residue classes); of custom character classes too; any other
+    # regex enters as findall counts. All three against re.findall on every span of random peptides.
+    app_cases = []
+    for _ in range(150 if tier == 'quick' else 2500):
+        sq = ''.join(rng.choice(annot.RESIDUES20 if rng.random() < 0.7 else 'STEDRKNQ') for _ in range(rng.randint(0, 12)))
+        for i in range(len(sq) + 1):
+            for j in range(i, len(sq) + 1):
+                app_cases.append(sq[i:j])
+    app_cases = list(dict.fromkeys(app_cases))
+    chk.correspond('builtin_applicability', DRV, app_cases, lambda c: f'builtin\t{annot.esc(c)}',
+                   lambda c: f"{len(re.findall('[STED]', c))},{len(re.findall('[RKNQ]', c))}",
+                   nontrivial_fn=lambda c, im: im != '0,0')
+    pat_cases = [(p, sq) for sq in app_cases[:: (7 if tier == 'quick' else 3)] for p in rng.sample(LOSS_PATTERNS, 3)]
+    chk.correspond('pattern_counts', DRV, pat_cases, lambda c: f'count\t{pat_wire(c[0], c[1])}\t{annot.esc(c[1])}',
+                   lambda c: str(len(re.findall(c[0], c[1]))), nontrivial_fn=lambda c, im: im != '0')
 
     def spans_impl(c):
         kind, n = c
